@@ -33,6 +33,7 @@ import "bytes"
 //@   ensures length: err == nil ==> written(dest) == w0 + headerLength + 3
 //@   ensures data3: err == nil && headerLength == 3 ==> wle3(dest, w0) == headerData & 0xFFFFFF && wle3(dest, w0 + 3) == uint64(crc.ChecksumKoopman(headerData, 3))
 //@   ensures data5: err == nil && headerLength == 5 ==> wle5(dest, w0) == headerData & 0xFFFFFFFFFF && wle3(dest, w0 + 5) == uint64(crc.ChecksumKoopman(headerData, 5))
+//@   ensures inmem: inmemory(dest) ==> err == nil
 
 //@ func (*codec).encodeHeaderUncompressed
 //@   prop C06
@@ -40,6 +41,7 @@ import "bytes"
 //@   requires lens: lensOk(header)
 //@   let w0 = written(dest)
 //@   ensures layout: err == nil ==> written(dest) == w0 + 6 && wle3(dest, w0) == hdrU(header) && wle3(dest, w0 + 3) == uint64(crc.ChecksumKoopman(hdrU(header), 3))
+//@   ensures inmem: inmemory(dest) ==> err == nil
 
 //@ func (*codec).encodeHeaderCompressed
 //@   prop C06
@@ -47,12 +49,14 @@ import "bytes"
 //@   requires lens: lensOk(header)
 //@   let w0 = written(dest)
 //@   ensures layout: err == nil ==> written(dest) == w0 + 8 && wle5(dest, w0) == hdrC(header) && wle3(dest, w0 + 5) == uint64(crc.ChecksumKoopman(hdrC(header), 5))
+//@   ensures inmem: inmemory(dest) ==> err == nil
 
 //@ func (*codec).writePayloadCrc
 //@   prop C06
 //@   assigns wstream(dest)
 //@   let w0 = written(dest)
 //@   ensures layout: err == nil ==> written(dest) == w0 + 4 && wbyte(dest, w0) == uint8(payloadCrc) && wbyte(dest, w0+1) == uint8(payloadCrc >> 8) && wbyte(dest, w0+2) == uint8(payloadCrc >> 16) && wbyte(dest, w0+3) == uint8(payloadCrc >> 24)
+//@   ensures inmem: inmemory(dest) ==> err == nil
 
 // Payloads above 131071 bytes are refused before anything is written.
 //@ func (*codec).EncodeSegment
@@ -61,6 +65,8 @@ import "bytes"
 //@   let w0 = written(dest)
 //@   let n = len(segment.Payload.UncompressedData)
 //@   ensures refused: n > 131071 ==> err != nil && written(dest) == w0
+// ... and every payload of at most 131071 bytes is accepted (nothing but the writer can make the plain encoder fail)
+//@   ensures accepted: n <= 131071 && inmemory(dest) ==> err == nil
 //@   ensures plain: n <= 131071 && c.compressor == nil && err == nil ==> written(dest) == w0 + 6 + n + 4 && wle3(dest, w0) == hdrU(segment.Header) && Z(segment.Header.UncompressedPayloadLength) == Z(n)
 //@   ensures lz4: n <= 131071 && c.compressor != nil && err == nil ==> written(dest) == w0 + 8 + Z(segment.Header.CompressedPayloadLength) + 4 && wle5(dest, w0) == hdrC(segment.Header)
 
@@ -72,6 +78,7 @@ import "bytes"
 //@   prop C06, C08
 //@   assigns rstream(source), wstream(dest)
 //@   assumes bound: result == nil ==> Z(written(dest)) - Z(old(written(dest))) <= 2 * (Z(avail(source)) - Z(old(pos(source)))) + 16
+//@   assumes inmem: inmemory(source) && inmemory(dest) ==> result == nil
 
 //@ iface PayloadCompressor.Decompress
 //@   prop C06, C08
@@ -90,6 +97,9 @@ import "bytes"
 //@   ensures lens: err == nil ==> lensOk(segment.Header) && (segment.Header.UncompressedPayloadLength == 0 ==> Z(segment.Header.CompressedPayloadLength) == Z(n)) && (segment.Header.UncompressedPayloadLength != 0 ==> Z(segment.Header.UncompressedPayloadLength) == Z(n) && segment.Header.CompressedPayloadLength <= segment.Header.UncompressedPayloadLength)
 //@   ensures length: err == nil ==> written(dest) == w0 + 8 + Z(segment.Header.CompressedPayloadLength) + 4
 //@   ensures header: err == nil ==> wle5(dest, w0) == hdrC(segment.Header) && wle3(dest, w0 + 5) == uint64(crc.ChecksumKoopman(hdrC(segment.Header), 5))
+// whatever the compressor produces, the payload is sent (compressed, or as is when compression does not pay): with an
+// in-memory destination nothing can make the encoder fail
+//@   ensures inmem: inmemory(dest) ==> err == nil
 
 // ---- read side -----------------------------------------------------------------------------------------------
 
@@ -137,6 +147,7 @@ import "bytes"
 //@   let n = len(segment.Payload.UncompressedData)
 //@   ensures length: err == nil ==> written(dest) == w0 + 6 + n + 4
 //@   ensures fields: err == nil ==> segment.Header.CompressedPayloadLength == 0 && Z(segment.Header.UncompressedPayloadLength) == Z(n)
+//@   ensures inmem: inmemory(dest) ==> err == nil
 //@   ensures header: err == nil ==> wle3(dest, w0) == hdrU(segment.Header) && wle3(dest, w0 + 3) == uint64(crc.ChecksumKoopman(hdrU(segment.Header), 3))
 //@   ensures trailer: err == nil ==> segment.Payload.Crc32 == crc32of(crc.initialChecksum, win(segment.Payload.UncompressedData), n) && wbyte(dest, w0 + 6 + n) == uint8(segment.Payload.Crc32) && wbyte(dest, w0 + 6 + n + 1) == uint8(segment.Payload.Crc32 >> 8) && wbyte(dest, w0 + 6 + n + 2) == uint8(segment.Payload.Crc32 >> 16) && wbyte(dest, w0 + 6 + n + 3) == uint8(segment.Payload.Crc32 >> 24)
 
